@@ -406,8 +406,14 @@ func (*Ufs) Create(req *SrvReq) {
 		file, e = os.OpenFile(path, omode2uflags(tc.Mode)|os.O_CREATE, os.FileMode(mode))
 	}
 
-	if file == nil && e == nil {
-		file, e = os.OpenFile(path, omode2uflags(tc.Mode), 0)
+	if file == nil && e == nil && tc.Perm&DMSYMLINK == 0 {
+		flags := omode2uflags(tc.Mode)
+		if tc.Perm&DMLINK != 0 {
+			/* the new name shares the data of the existing file: creating it truncates nothing */
+			flags &^= os.O_TRUNC
+		}
+
+		file, e = os.OpenFile(path, flags, 0)
 	}
 
 	if e != nil {
